@@ -180,8 +180,11 @@ func (a *App) indexFile(ctx context.Context, upload *db.Upload, p io.Reader, met
 		start := time.Now()
 		if err != nil {
 			fw.CloseWithError(err)
-		} else {
-			err = fw.Close()
+		} else if err = fw.Close(); err != nil {
+			// The upload fails, so do not leave the file behind
+			// if the store kept what was written before the
+			// close failed.
+			fw.CloseWithError(err)
 		}
 		infof(ctx, "Close(%q) took %.2f seconds", path, time.Since(start).Seconds())
 	}()
